@@ -70,7 +70,8 @@ func main() {
 	func() {
 		defer func() {
 			if r := recover(); r != nil {
-				ctx.Anchor("PANIC", fmt.Sprintf("checker panic: %v\n%s", r, debug.Stack()))
+				fmt.Fprintf(os.Stderr, "checker panic: %v\n%s\n", r, debug.Stack())
+				ctx.Anchor("PANIC", fmt.Sprintf("checker panic: %v", r))
 			}
 		}()
 		rule(ctx)
